@@ -8,6 +8,7 @@ Open Scope bool_scope.
 (* common.clipResults *)
 Definition go_common_clipResults (minTTL : Z) (results : list (bool * bool)) :=
   let destIdx := (gx_index_func (fun pr : bool * bool => let pr_isnil := fst pr in let pr_IsDest := snd pr in ((negb pr_isnil) && pr_IsDest)) results) in
-  let results := if (negb (destIdx =? (- 1))) then (firstn (Z.to_nat (destIdx + 1)) results) else results in
-  (skipn (Z.to_nat (minTTL)) results).
+  if (negb (destIdx =? (- 1))) then let results := (firstn (Z.to_nat (destIdx + 1)) results) in
+  (skipn (Z.to_nat (minTTL)) results)
+  else (skipn (Z.to_nat (minTTL)) results).
 
